@@ -124,7 +124,9 @@ func hashToken(id uint64) primitives.BlockHash {
 	var x [8]byte
 	binary.LittleEndian.PutUint64(x[:], id)
 	h := sha256.Sum256(append([]byte("blockhash"), x[:]...))
-	return primitives.BlockHash(h[:])
+	// a block hash is whatever byte string the consumer's hashing gives: these are 72 bytes long and agree in the
+	// first 40, so that anything keyed by a fixed-size prefix of a hash collides on them
+	return primitives.BlockHash(append([]byte("consumer-chosen-hash-format-v1-40-bytes!"), h[:]...))
 }
 
 // ---- membership ----
